@@ -19,31 +19,45 @@ from vlib.runner import Chooser, Violation, HarnessError, Reject
 
 PROPERTY = 'C18'
 EXHAUSTIVE = True
-RULE = ('history: Hypothesis draws a universe (3-6 units from seven port layouts fixed/variable x 1-3 ports, built '
+RULE = ('history: Hypothesis draws a universe (3-6 units from seven port layouts, fixed/variable x 1-3 ports, built '
         'through the constructor with ins/outs given as None, (), one stream or a list that may steal docked '
-        'streams; 5-10 streams) and up to 50 operations, each drawn from the operations ENABLED in the current '
-        'state by exactly the stated preconditions: item/slice assignment, pipe notation, append/insert/extend, '
-        'pop/remove/replace/clear/empty, stream.disconnect*, unit.disconnect(inlets/outlets/join_ends), unit-unit '
-        'piping, unit.insert(stream, inlet, outlet), take_place_of, replace_with, saving and reconnecting '
-        'Connections, constructing further units; arguments include free streams, streams docked elsewhere, '
-        'None and placeholder streams.  bfs: every sequence of the small alphabet on Mix(2->1 fixed), '
-        'Split(1->2 fixed), Var(variable) with five streams from an empty and from a chained initial flowsheet, '
-        'to depth 3 (quick) / 4 (thorough); a sequence is not extended when it reaches a (units, port lists, '
-        'stream pointers) state already expanded at the same or a smaller depth.  Oracle after every step: walk '
-        'over all units and all streams ever seen: listed in u.ins <=> sink is u, listed in u.outs <=> source is '
-        'u, no object at two inlet or two outlet ports, fixed lists keep their size, every port holds a stream or '
-        'a falsy placeholder.  Non-trivial: some stream was docked at two different units on the same side during '
-        'the sequence; distinct by (universe layout, sequence of operation descriptors).')
+        'streams; 5-10 streams; or one of the two small universes) and up to 50 operations, each drawn from the '
+        'operations ENABLED in the current state by exactly the stated preconditions: item assignment (also as '
+        's-i-u / u**i**s pipes, also one past the end of a variable list), slice assignment (also as (s1,s2)-u, '
+        'u-s pipes), append/insert/extend, pop/remove/replace/clear/empty, stream.disconnect_source/_sink/'
+        'disconnect, unit.disconnect(inlets/outlets as None, streams or indices, join_ends), unit-unit piping, '
+        'unit.insert(stream, inlet, outlet), take_place_of, replace_with(other/None), saving and reconnecting '
+        'Connections, constructing further units; arguments are free streams, streams docked elsewhere, None and '
+        'placeholder streams.  Operations inside a known finding\'s trigger region are only generated in "risky" '
+        'histories (half of them), which end there.  bfs: explicit-state enumeration of every sequence of the small '
+        'alphabet (same generator driven by an exhaustive chooser; interchangeable never-docked streams reduced to '
+        'the lowest one, one placeholder argument per target, full-span slices of <=2 streams, single-port '
+        'unit.disconnect selections) on Mix(2->1 fixed), Split(1->2 fixed), Var(2/2 variable) with five streams, '
+        'from the empty flowsheet A and the chained flowsheet B (s0,s1->Mix->s2->Split->s3->Var, s4 free): depth 3 '
+        'for both in the quick tier, depth 4 for A and 3 for B and for the looped flowsheet C (Split->s1,s2->Var->s0->'
+        'Split) in the thorough tier; a sequence is not extended '
+        'when it reaches a complete state (port lists, placeholder and stream pointers) already expanded at the '
+        'same or a smaller depth.  Oracle after every step: independent walk over all units and all streams ever '
+        'seen: listed in u.ins <=> sink is u, listed in u.outs <=> source is u (real streams and placeholders in '
+        'ports), no object at two inlet or two outlet ports, fixed lists keep their size, every port holds a '
+        'truthy stream or a falsy placeholder.  Non-trivial: some stream was docked at two different units on the '
+        'same side during the sequence; distinct by (universe layout, sequence of (operation, unit class, region)).')
 ASSUMPTIONS = [
     'operations are generated only inside the preconditions of the quantifier: appended/inserted/extended streams are '
-    'not docked on that side, an assigned stream (or any stream of an assigned slice / piped unit) is not already in '
-    'the target list, slices and piped units never make a fixed list longer than its size (the literal reading '
-    '"supplies no more streams than the list holds" is generated under the separate region fit=grow)',
+    'not docked on that side, an assigned stream (or any stream of an assigned slice / piped unit / replacing unit) is '
+    'not already in the target list, full slices and piped units supply no more streams than a fixed list holds; the '
+    'literal reading for partial slices (no more streams than the list holds, although more than the slice vacates) '
+    'is generated under the separate region fit=grow and may be rejected with the library\'s RuntimeError',
     'composite operations (unit.insert, replace_with(None), unit.disconnect(join_ends)) are generated only where '
-    'they do not raise their documented ValueError and where the stream / unit is not a self-loop',
+    'they do not raise their documented ValueError, the inserted stream connects two other units, and no self-loop '
+    'stream of the unit is involved',
     'placeholders are operated on only while they sit in a port list (they are fetched through the list)',
-    'variable-size lists are not required to shrink on remove (Appendix A)',
+    'variable-size lists are not required to shrink on remove (DESIGN Appendix A)',
     'Connection.reconnect is generated when the stream is absent from the target list or sits at the saved index',
+    'exhaustive engine: states are rebuilt by replaying their sequence from scratch, then every operation is tried '
+    'on a snapshot of (_ins._streams, _outs._streams, stream._source, stream._sink) that is restored afterwards; '
+    'the slot layout is asserted, 1 in 499 sequences is re-run from scratch through the validating chooser and must '
+    'reach the same state, and failures are re-run from scratch by the runner',
 ]
 REQUIRED_CELLS = {
     'quick': ['op:set', 'op:slice', 'op:append', 'op:insert', 'op:extend', 'op:pop', 'op:remove', 'op:replace',
@@ -119,10 +133,11 @@ class World:
             self.reals.append(s)
 
     def discover(self):
-        for ui in range(len(self.units)):
-            for sd in (0, 1):
-                for o in self.items(ui, sd):
-                    if isinstance(o, AS):
+        ids = self._ids
+        for u in self.units:
+            for L in (u.ins, u.outs):
+                for o in L:
+                    if id(o) not in ids and isinstance(o, AS):
                         self.add_real(o)
 
     def uindex(self, u):
@@ -215,47 +230,61 @@ class TrustedReplay:
 # ---------------------------------------------------------------------------
 
 def check_world(ctx, w, site, region):
-    pos = [{}, {}]          # side -> id(obj) -> [(ui, idx)]
-    objs = {}
-    for ui, u in enumerate(w.units):
+    """Independent walk: every port of every unit, then every stream ever seen and every placeholder in a port."""
+    units = w.units
+    pos = ({}, {})          # side -> id(obj) -> (unit index, port index)
+    phs = []
+    for ui, u in enumerate(units):
+        lay = LAYOUT[w.cls[ui]]
         for sd in (0, 1):
-            L = w.items(ui, sd)
-            if w.fixed(ui, sd) and len(L) != w.nominal(ui, sd):
+            L = list(u.ins if sd == 0 else u.outs)
+            if lay[2 + sd] and len(L) != lay[sd]:
                 ctx.fail(f'{site}|{region}|size-{SIDE[sd]}',
-                         f'fixed-size {SIDE[sd]} of unit {ui} ({w.cls[ui]}) has {len(L)} ports, not {w.nominal(ui, sd)}')
+                         f'fixed-size {SIDE[sd]} of unit {ui} ({w.cls[ui]}) has {len(L)} ports, not {lay[sd]}')
+            psd = pos[sd]
             for i, o in enumerate(L):
-                if isinstance(o, AS):
+                t = type(o)
+                if t is AS or (t is not MS and isinstance(o, AS)):
                     if not o:
                         ctx.fail(f'{site}|{region}|falsy-real', f'real stream at {ui}.{SIDE[sd]}[{i}] is falsy')
-                elif isinstance(o, MS):
+                elif t is MS or isinstance(o, MS):
                     if o:
                         ctx.fail(f'{site}|{region}|truthy-placeholder', f'placeholder at {ui}.{SIDE[sd]}[{i}] is truthy')
+                    phs.append(o)
                 else:
                     ctx.fail(f'{site}|{region}|bad-element-{SIDE[sd]}',
                              f'{ui}.{SIDE[sd]}[{i}] holds {type(o).__name__}, neither stream nor placeholder')
-                pos[sd].setdefault(id(o), []).append((ui, i))
-                objs[id(o)] = o
-    tracked = [(f's{k}', s) for k, s in enumerate(w.reals)]
-    real_ids = {id(s) for s in w.reals}
-    tracked += [(f'placeholder@{pos[0].get(i, pos[1].get(i))}', o) for i, o in objs.items() if i not in real_ids]
-    for name, o in tracked:
-        kind = 'ph' if is_ph(o) else 'real'
-        for sd in (0, 1):
-            where = pos[sd].get(id(o), [])
-            word = ('sink', 'source')[sd]
-            if len(where) > 1:
-                ctx.fail(f'{site}|{region}|two-{SIDE[sd]}-ports:{kind}',
-                         f'{name} occupies {len(where)} {SIDE[sd]} ports {where}')
-            p = ptr(o, sd)
-            if where:
-                u = w.units[where[0][0]]
-                if p is not u:
+                k = id(o)
+                if k in psd:
+                    ctx.fail(f'{site}|{region}|two-{SIDE[sd]}-ports:{"ph" if isinstance(o, MS) else "real"}',
+                             f'{_name(w, o)} occupies {SIDE[sd]} ports {psd[k]} and {(ui, i)}')
+                psd[k] = (ui, i)
+    pos0, pos1 = pos
+    for group, kind in ((w.reals, 'real'), (phs, 'ph')):
+        for o in group:
+            k = id(o)
+            for sd, psd, p in ((0, pos0, o.sink), (1, pos1, o.source)):
+                where = psd.get(k)
+                if where is None:
+                    if p is not None:
+                        word = ('sink', 'source')[sd]
+                        ctx.fail(f'{site}|{region}|{word}-not-listed:{kind}',
+                                 f'{_name(w, o)}.{word} is unit {w.uindex(p)} but the stream is not among its {SIDE[sd]}')
+                elif p is not units[where[0]]:
+                    word = ('sink', 'source')[sd]
                     ctx.fail(f'{site}|{region}|listed-not-{word}:{kind}',
-                             f'{name} is listed at unit {where[0][0]}.{SIDE[sd]}[{where[0][1]}] but its {word} is '
+                             f'{_name(w, o)} is listed at unit {where[0]}.{SIDE[sd]}[{where[1]}] but its {word} is '
                              f'{"None" if p is None else "unit %s" % w.uindex(p)}')
-            elif p is not None:
-                ctx.fail(f'{site}|{region}|{word}-not-listed:{kind}',
-                         f'{name}.{word} is unit {w.uindex(p)} but the stream is not among its {SIDE[sd]}')
+
+
+def _name(w, o):
+    for k, s in enumerate(w.reals):
+        if s is o: return f's{k}'
+    for ui in range(len(w.units)):
+        for sd in (0, 1):
+            for i, x in enumerate(w.items(ui, sd)):
+                if x is o: return f'placeholder@{ui}.{SIDE[sd]}[{i}]'
+    return 'placeholder'
 
 
 def state_key(w):
@@ -328,10 +357,14 @@ def small_universe(ctx, w, cfg):
         build_unit(ctx, w, 'Mix', 'none', 'none')
         build_unit(ctx, w, 'Split', 'none', 'none')
         build_unit(ctx, w, 'Var', 'none', 'none')
-    else:
+    elif cfg == 'B':        # s0, s1 -> Mix -> s2 -> Split -> s3 -> Var ; s4 free
         build_unit(ctx, w, 'Mix', ['list', [s(0), s(1)]], ['list', [s(2)]])
         build_unit(ctx, w, 'Split', ['one', s(2)], ['list', [s(3)]])
         build_unit(ctx, w, 'Var', ['list', [s(3)]], ['list', []])
+    else:                   # C: Split -> s1, s2 -> Var -> s0 -> Split (a loop; the constructor steals s0 from Mix), s3 product
+        build_unit(ctx, w, 'Mix', 'none', ['one', s(0)])
+        build_unit(ctx, w, 'Split', ['list', [s(0)]], ['list', [s(1), s(2)]])
+        build_unit(ctx, w, 'Var', ['list', [s(1), s(2)]], ['list', [s(3), s(0)]])
     w.saved = [x.get_connection() for x in w.reals[:5]]
 
 
@@ -403,6 +436,11 @@ def var_lists(w):
 
 def nonempty_lists(w):
     return [L for L in w.lists() if len(w.lst(*L))]
+
+
+def replace_lists(w, P):
+    small = P['small']
+    return [L for L in nonempty_lists(w) if assignable(w, L[0], L[1], P, none=not small, ph=not small)]
 
 
 def insert_cands(w, P):
@@ -537,7 +575,8 @@ def enabled_kinds(w, P):
     if any(appendable(w, ui, sd, P) for ui, sd in var_lists(w)):
         kinds += ['append', 'insert', 'extend']
     if nonempty_lists(w):
-        kinds += ['pop', 'remove', 'replace']
+        kinds += ['pop', 'remove']
+        if replace_lists(w, P): kinds.append('replace')
     kinds += ['clear', 'empty', 'sdisc', 'udisc']
     if pipe_pairs(w): kinds.append('upipe')
     if tp_pairs(w): kinds.append('take_place_of')
@@ -561,6 +600,8 @@ def pick_op(ch, w, P):
         via = 'item'
         if not small and x is not None and x[0] == 's':
             via = pick(ch, 'via', ['item', 'pipe', 'pow'])
+        if not small and i < n and ch.bool('negative'):
+            i -= n                                   # the same port addressed from the end
         return ['set', ui, sd, i, x, via]
     if kind == 'slice':
         ui, sd = pick(ch, 'L', w.lists)
@@ -612,7 +653,7 @@ def pick_op(ch, w, P):
             xs.append(pick(ch, 'x', cands))
         return ['extend', ui, sd, xs]
     if kind in ('pop', 'remove', 'replace'):
-        ui, sd = pick(ch, 'L', lambda: nonempty_lists(w))
+        ui, sd = pick(ch, 'L', lambda: replace_lists(w, P) if kind == 'replace' else nonempty_lists(w))
         i = ch.int('i', 0, len(w.lst(ui, sd)) - 1)
         if kind == 'replace':
             x = pick(ch, 'x', lambda: assignable(w, ui, sd, P, none=not small, ph=not small))
@@ -736,6 +777,7 @@ def apply_op(ctx, w, op):
         L = w.lst(ui, sd); u = w.units[ui]; o = resolve(w, x)
         n = len(L)
         old = 'new' if i >= n else occ(L[i])
+        if i < 0: ctx.cell('set:negative-index')
         region = f'{lkind(w, ui, sd)},arg={argcls(w, sd, x)},old={old}'
         ctx.cell('arg:' + argcls(w, sd, x)); ctx.cell('via:' + via)
         if via == 'item':
@@ -779,7 +821,15 @@ def apply_op(ctx, w, op):
                     def f(): u - objs[0]
                 else:
                     def f(): u - tuple(objs)
-        ctx.call('slice', f, region=region)
+        if fit == 'grow':
+            # more streams than the slice vacates but no more than the list holds: either the list keeps its size
+            # (checked by the walk) or the call is rejected with the library's 'size exceeds' RuntimeError
+            try:
+                ctx.call('slice', f, region=region, allowed=(RuntimeError,))
+            except RuntimeError:
+                ctx.cell('slice:grow-rejected')
+        else:
+            ctx.call('slice', f, region=region)
         return 'slice', region
     if k in ('append', 'insert', 'extend'):
         ui, sd = op[1], op[2]
@@ -888,7 +938,7 @@ def apply_op(ctx, w, op):
 
 def run_history(ch, ctx):
     if _TH is None: setup(ctx)
-    cfg = pick(ch, 'universe', ['A', 'B', 'R'])
+    cfg = pick(ch, 'universe', ['R', 'R', 'R', 'A', 'B', 'C'])
     w = World()
     small = cfg != 'R'
     if small:
@@ -1087,7 +1137,8 @@ def prop_bfs(_, ctx):
         ch.verified_steps = len(steps)          # every prefix was checked when it was executed as a sequence
         return run_history(ch, ctx)
 
-    for cfg, cfg_depth in (('A', depth), ('B', depth)):
+    plan = (('A', depth), ('B', min(depth, 3))) + ((('C', 3),) if depth >= 4 else ())
+    for cfg, cfg_depth in plan:
         ctx.cell(f'bfs:cfg={cfg}')
         nseq = nstates = nspot = 0
         seen = set()
@@ -1101,11 +1152,15 @@ def prop_bfs(_, ctx):
             last = level == cfg_depth
             nxt = []
             for steps in frontier:
-                w = from_scratch(cfg, steps)
+                try:
+                    w = from_scratch(cfg, steps)
+                except Violation as v:          # only possible while building the initial flowsheet
+                    nseq += 1; ctx.evaluations += 1; stats['evaluations'] += 1
+                    record(v, full_log(cfg, steps))
+                    continue
                 key0 = state_key(w)
                 if level == 1:
                     seen.add(key0)
-                    check_world(ctx, w, 'construct', 'initial')
                 leaves = all_ops(w, w.P)
                 if level == 1:
                     done[f'cfg{cfg}:root_ops'] = len(leaves) if ctx.shard == 0 else 0
@@ -1147,7 +1202,7 @@ def prop_bfs(_, ctx):
 
 
 PROPS = {
-    'history': (prop_history, 2400, 60000),
+    'history': (prop_history, 4000, 60000),
     'bfs': (prop_bfs, 3, 4, {'exhaustive': True}),
 }
-WALL = {'quick': 300, 'thorough': 2400}
+WALL = {'quick': 540, 'thorough': 3300}
